@@ -6,7 +6,7 @@ ROOT = os.path.dirname(os.path.dirname(os.path.abspath(__file__)))
 
 def items():
     out = []
-    for d in sorted(glob.glob(os.path.join(ROOT, 'seeded', 'C??_?'))):
+    for d in sorted(glob.glob(os.path.join(ROOT, 'seeded', 'C??_*'))):
         name = os.path.basename(d)
         patch = os.path.join(d, 'patch_rebased.diff') if os.path.exists(os.path.join(d, 'patch_rebased.diff')) else os.path.join(d, 'patch.diff')
         out.append((name, [name[:3]], patch))
